@@ -1,8 +1,13 @@
 pub mod sha256;
 pub mod enc;
+pub mod psetraw;
 pub mod sighash;
+pub mod addr;
+pub mod script;
+pub mod taproot;
 
 pub fn self_test() -> Result<(), String> {
     sighash::self_test()?;
+    addr::self_test()?;
     Ok(())
 }
